@@ -135,7 +135,7 @@ def build(struct, names, species, counter, mode):
         if item == 'S':
             sp = species.pop()
             slot = None
-            if mode == 'all' or (mode == 'mixed' and counter[0] % 2 == 0):
+            if mode in ('all', 'baregroups') or (mode == 'mixed' and counter[0] % 2 == 0):
                 slot = f"n{len(names) + 1}"
                 names.append(slot)
             elif mode == 'mixed':
@@ -173,7 +173,7 @@ def scenarios(tier, seed):
     for i, st in enumerate(structs):
         natural = (i % 2 == 0)
         style = i % 3
-        mode = ('all', 'groups', 'mixed')[(i // 3) % 3]
+        mode = ('all', 'groups', 'mixed', 'baregroups')[(i // 3) % 4]       # baregroups: groups without a multiplier, e.g. (NH4)Cl
         nleaves = str(st).count("'S'")
         # draw species so that (thorough) the whole pool is used before anything repeats
         sp = []
@@ -190,7 +190,7 @@ def scenarios(tier, seed):
         tree = build(st, names, list(reversed(sp)), [i], mode)
         if not names:
             tree = build(st, names, list(reversed(sp)), [i], 'all')
-        S.append(Scenario(f'formula/{i}:{mode}:{style}:{"nat" if natural else "abund"}', SUB_SRC, {n: 'count' for n in names},
+        S.append(Scenario(f'formula/{i}:{mode}:{style}:{"nat" if natural else "abund"}', SUB_SRC, {n: ('count0' if i % 5 == 0 else 'count') for n in names},
                           consts={'tree': tree, 'style': style, 'natural': natural}, preamble=PRE,
                           what=f'formula skeleton {tree} layout {style}', samples=1))
     # arithmetic on substances
@@ -201,7 +201,7 @@ def scenarios(tier, seed):
         t1 = build(st1, names, [sp[0], sp[1]], [j], 'all')
         t2 = build(st2, names, [sp[1], sp[2]] if j % 3 else [sp[2], sp[1]], [j], 'all')     # build() pops from the end: b lists sp[2] first, so the last species a + b adds already exists in a
         inp = {n: 'count' for n in names}
-        inp['k'] = 'count'
+        inp['k'] = 'count0'        # multiplying by zero leaves every species with count zero
         S.append(Scenario(f'arith/{j}', ARITH_SRC, inp, consts={'tree': t1, 'tree2': t2, 'natural': False}, preamble=PRE,
                           what=f'substance addition / scaling {t1} , {t2}', samples=1))
     for j in range(3 if tier == 'quick' else 10):
